@@ -316,9 +316,13 @@ def shadowing(ops):
 
 
 def line(kind, ar, size, ops):
-    ini = INIT2 if kind in ("fs2", "choice") else INIT
-    init = " ".join(f"{n} {v}" for n, v in ini.items())
-    return f"{ar} {UPT[kind]} {size} {len(ini)} {init} " + " ".join(model_ops(kind, ops))
+    if kind in ("fs2", "choice"):
+        # the layered model (Model/TcLay.v): layer 1 empty, layer 2 = INIT2; closure of the FileSystemLoader (after fix
+        # 3f4facf) resp. of the serving ChoiceLoader member
+        init = " ".join(f"2 {n} {v}" for n, v in INIT2.items())
+        return f"Y {ar} {'F' if kind == 'fs2' else 'C'} {size} 2 {len(INIT2)} {init} " + " ".join(ops)
+    init = " ".join(f"{n} {v}" for n, v in INIT.items())
+    return f"{ar} {UPT[kind]} {size} {len(INIT)} {init} " + " ".join(ops)
 
 
 def histories(alpha, lo, hi):
@@ -337,6 +341,7 @@ def run(ctx):
         "template globals updates on cache hits are not modelled",
     ]
     ctx.proof("C25")
+    ctx.proof("C25lay")
     # translator tie (T5): the current source of Environment._load_template, as a term of Lib/PyTc, is proved equal
     # to Model.Tc.load_template for every state, name and globals truth value; create_cache / is_up_to_date /
     # the entry points funnelling into _load_template are checked structurally
@@ -350,6 +355,14 @@ def run(ctx):
     except tc_translate.Untranslatable as e:
         ctx.obligations += 1
         ctx.broken.append(f"translator gen/tc_translate.py: environment.py left the translatable vocabulary: {e}")
+    # the FileSystemLoader's up-to-date closure (Model/TcLay.v, LFs) as the source has it now: watches the earlier search
+    # paths, compares the mtime for equality, OSError = changed (Gen_ldc.fs_closure_shape)
+    import ldc_translate
+    try:
+        ctx.coq_obligation("Gen_ldc", ldc_translate.emit(lib.SRC), n_obligations=2)
+    except ldc_translate.Untranslatable as e:
+        ctx.obligations += 2
+        ctx.broken.append(f"translator gen/ldc_translate.py: loaders.py left the translatable vocabulary: {e}")
 
     L1 = ctx.size(4, 5)
     L2 = ctx.size(5, 6)
@@ -357,14 +370,16 @@ def run(ctx):
     full = list(histories(ALPHA_FULL, 0, L1))
     red = list(histories(ALPHA_RED, L1 + 1, L2))
     three = list(histories(ALPHA_3, 3, L2))
-    for size in (0, 1, 2, -1):
-        for ar in (1, 0):
+    grid = [(s_, a_) for s_ in (0, 1, 2, -1) for a_ in (1, 0)]
+    quick_grid = [(0, 1), (1, 1), (1, 0), (-1, 1), (-1, 0)]
+    for size, ar in (quick_grid if ctx.tier == "quick" else grid):
+        if True:
             for h in full:
                 cases.append(("dict", ar, size, h))
-    for size, ar in ((1, 1), (2, 0)) if ctx.tier == "quick" else ((1, 1), (-1, 1), (2, 0), (1, 0)):
+    for size, ar in ((2, 0),) if ctx.tier == "quick" else ((1, 1), (-1, 1), (2, 0), (1, 0)):
         for h in red:
             cases.append(("dict", ar, size, h))
-    for size, ar in ((2, 1), (2, 0), (1, 1)) if ctx.tier == "quick" else ((1, 1), (1, 0), (2, 1), (2, 0)):
+    for size, ar in ((2, 1), (2, 0)) if ctx.tier == "quick" else ((1, 1), (1, 0), (2, 1), (2, 0)):
         if True:
             for h in three:
                 cases.append(("dict", ar, size, h))
@@ -377,12 +392,12 @@ def run(ctx):
     short = list(histories(ALPHA_FULL, 0, L1 - 1))
     for kind in ("funcV", "funcN", "funcT", "funcF"):
         for size in ((0, 1, 2, -1) if kind == "funcV" else (1, -1)):
-            for ar in (1, 0):
+            for ar in ((1, 0) if kind == "funcV" or ctx.tier != "quick" else (1,)):
                 for h in short:
                     cases.append((kind, ar, size, h))
     fs_h = list(histories(ALPHA_RED, 0, L1)) + list(histories(ALPHA_3, 3, L1))
-    for size in (0, 1, 2, -1):
-        for ar in (1, 0):
+    for size, ar in ([(0, 1), (1, 1), (-1, 1), (-1, 0), (2, 0)] if ctx.tier == "quick" else grid):
+        if True:
             for h in fs_h:
                 cases.append(("fs", ar, size, h))
     # layered loaders: FileSystemLoader with two search paths, ChoiceLoader of two DictLoaders; layer 1 shadows layer 2
